@@ -66,6 +66,115 @@ theorem parse_marshalString (h : Hash) (hlo : -(2 ^ 31) ≤ h.type) (hhi : h.typ
   rw [B58.decode_encode h.marshal hne]
   exact Hash.unmarshal_marshal h hlo hhi hl
 
+/-- The empty encoding belongs to exactly one hash: the all-default one. -/
+theorem marshal_eq_nil_iff (h : Hash) (hlo : -(2 ^ 31) ≤ h.type) :
+    h.marshal = [] ↔ h = ⟨0, []⟩ := by
+  constructor
+  · intro hm
+    unfold Hash.marshal at hm
+    obtain ⟨h1, h2⟩ := List.append_eq_nil_iff.mp hm
+    have ht : h.type = 0 := by
+      unfold PW.encVarintOpt at h1
+      split at h1
+      · rename_i hz
+        unfold int32ToU64 at hz
+        split at hz <;> omega
+      · exact absurd h1 (PW.encVarint_ne_nil _ _)
+    have hd : h.digest = [] := by
+      unfold PW.encBytesOpt at h2
+      split at h2
+      · rename_i he
+        simpa using he
+      · exact absurd h2 (PW.encBytes_ne_nil _ _)
+    cases h
+    simp_all
+  · intro e
+    subst e
+    decide
+
+/-- LIVE finding (hash-b58-all-default): "hashes survive the base58 encoding unchanged" is FALSE
+for the all-default hash: `MarshalString` gives the empty string and `ParseFromB58("")` is an
+error (mr-tron/base58 rejects the empty string). Replayed on the real code every run. -/
+theorem parse_marshalString_all_false :
+    ¬ (∀ h : Hash, -(2 ^ 31) ≤ h.type → h.type < 2 ^ 31 → h.digest.length < 2 ^ 63 →
+        Hash.parseFromB58 h.marshalString = some h) := by
+  intro hall
+  have := hall ⟨0, []⟩ (by decide) (by decide) (by decide)
+  revert this
+  decide
+
+/-- PARTIAL (strongest true form): a hash survives the base58 encoding EXACTLY when it is not the
+all-default hash — every int32 type, every digest; the single exception is `{UNKNOWN, empty}`. -/
+theorem parse_marshalString_iff_partial (h : Hash) (hlo : -(2 ^ 31) ≤ h.type) (hhi : h.type < 2 ^ 31)
+    (hl : h.digest.length < 2 ^ 63) :
+    Hash.parseFromB58 h.marshalString = some h ↔ h ≠ ⟨0, []⟩ := by
+  constructor
+  · intro hp e
+    subst e
+    revert hp
+    decide
+  · intro hne
+    exact parse_marshalString h hlo hhi hl (fun hm => hne ((marshal_eq_nil_iff h hlo).mp hm))
+
+/-- `UnmarshalVT` into a fresh receiver is the plain decoder. -/
+theorem unmarshalInto_default (b : Bytes) : Hash.unmarshalInto ⟨0, []⟩ b = Hash.unmarshal b := by
+  unfold Hash.unmarshalInto Hash.unmarshal
+  cases hd : PW.decode hashSchema b with
+  | error e => rfl
+  | ok r =>
+    have hv : r.has 1 = false → r.lastVarint 1 = 0 := by
+      intro hh
+      unfold PW.Raw.has at hh
+      unfold PW.Raw.lastVarint
+      generalize r.fields = fs at hh
+      induction fs with
+      | nil => rfl
+      | cons f fs ih =>
+        simp only [List.any_cons, Bool.or_eq_false_iff, decide_eq_false_iff_not] at hh
+        simp only [List.foldl_cons, hh.1, if_false]
+        exact ih hh.2
+    have hb : r.has 2 = false → r.lastBytes 2 = [] := by
+      intro hh
+      unfold PW.Raw.has at hh
+      unfold PW.Raw.lastBytes
+      generalize r.fields = fs at hh
+      induction fs with
+      | nil => rfl
+      | cons f fs ih =>
+        simp only [List.any_cons, Bool.or_eq_false_iff, decide_eq_false_iff_not] at hh
+        simp only [List.foldl_cons, hh.1, if_false]
+        exact ih hh.2
+    simp only [Option.some.injEq]
+    cases h1 : r.has 1 <;> cases h2 : r.has 2 <;> simp [PW.toInt32, hv, hb, h1, h2]
+
+/-- `ParseFromB58` (fixed code: the receiver is reset first) gives the encoded hash WHATEVER the
+receiver held before: a hash survives the base58 encoding into a used receiver. -/
+theorem parse_into_any_receiver (recv h : Hash) (hlo : -(2 ^ 31) ≤ h.type) (hhi : h.type < 2 ^ 31)
+    (hl : h.digest.length < 2 ^ 63) (hne : h.marshal ≠ []) :
+    Hash.parseFromB58Into recv h.marshalString = some h := by
+  have := parse_marshalString h hlo hhi hl hne
+  unfold Hash.parseFromB58 at this
+  unfold Hash.parseFromB58Into Hash.parseFromB58IntoPreFix
+  cases hd : B58.decode h.marshalString with
+  | none => rw [hd] at this; exact this
+  | some d => rw [hd] at this; simp only []; rw [unmarshalInto_default]; exact this
+
+/-- Pre-fix behaviour (fixed by patch `fix: hash: ParseFromB58 resets the receiver`): parsing into
+a receiver that already held a hash kept the old value of every field the text omits — the hash
+`{UNKNOWN, [1]}` parsed into a receiver holding `{SHA1, [9]}` came out as `{SHA1, [1]}`. -/
+theorem prefix_parse_into_used_receiver_false :
+    ¬ (∀ recv h : Hash, -(2 ^ 31) ≤ h.type → h.type < 2 ^ 31 → h.digest.length < 2 ^ 63 → h.marshal ≠ [] →
+        Hash.parseFromB58IntoPreFix recv h.marshalString = some h) := by
+  intro hall
+  have := hall ⟨2, [9]⟩ ⟨0, [1]⟩ (by decide) (by decide) (by decide) (by decide)
+  revert this
+  decide
+
+example : Hash.parseFromB58IntoPreFix ⟨2, [9]⟩ (Hash.marshalString ⟨0, [1]⟩) = some ⟨2, [1]⟩ ∧
+    Hash.parseFromB58Into ⟨2, [9]⟩ (Hash.marshalString ⟨0, [1]⟩) = some ⟨0, [1]⟩ ∧
+    Hash.parseFromB58 (Hash.marshalString ⟨0, []⟩) = none := by
+  decide
+
 theorem compare_iff (a b : Hash) : Hash.compare a b = true ↔ a = b := by
   unfold Hash.compare
   simp only [Bool.and_eq_true, decide_eq_true_eq]
